@@ -21,7 +21,7 @@ def split_cases(lines):
     """lines: list of (cmd+obs dict, model dict|None). yields lists per case."""
     cur = []
     for ln in lines:
-        if ln[0].get("k") in ("case", "scase") and cur:
+        if ln[0].get("k") in ("case", "scase", "enccase") and cur:
             yield cur
             cur = []
         cur.append(ln)
@@ -168,7 +168,7 @@ class Track:
             return t
         if k == "dlv" and ln.get("mut"):
             self.tainted.add(r)
-        if k in ("call", "tx", "dlv"):
+        if k in ("call", "tx", "dlv", "pjson"):
             for e in io.get("emitted", []):
                 self.applied[r].add(canon(e["id"]))
             if k == "dlv" and io.get("err") == 0 and not ln.get("mut") and not io.get("panic"):
@@ -185,7 +185,7 @@ def converge(case):
         tr.feed(ln)
         io = ln.get("obs", {})
         r = ln.get("r")
-        if ln.get("k") in ("call", "tx", "dlv", "snap", "obs") and "view" in io:
+        if ln.get("k") in ("call", "tx", "dlv", "snap", "obs", "pjson") and "view" in io:
             rr = r if ln.get("k") != "snap" else max(tr.applied)
             tr.last[rr] = dict(tr.last.get(rr, {}), view=io["view"], size=io.get("size"))
             for o, ap in tr.applied.items():
@@ -624,6 +624,59 @@ def contract(case):
     return []
 
 
+def patch_target(case):
+    """C19: after PatchByJSON(target) the document's value IS the target, the emitted operations form
+    one atomic unit (a single operation or one transaction announcing its length); the REST endpoint
+    answers with the target and the stored user document becomes the target."""
+    for idx, (ln, mo) in enumerate(case):
+        io = ln.get("obs", {})
+        if ln.get("k") == "pjson":
+            if io.get("panic") or io.get("hang"):
+                return [dict(step=idx, what="patch-panic", detail=dict(cmd=strip(ln), msg=io.get("panicMsg")))]
+            if io.get("err"):
+                return [dict(step=idx, what="patch-refused", detail=dict(cmd=strip(ln), err=io.get("err"), patch=io.get("patch")))]
+            if first_diff(io.get("view"), ln.get("json")):
+                return [dict(step=idx, what="patched-value-is-not-target", detail=dict(cmd=strip(ln), view=io.get("view"), patch=io.get("patch")))]
+            em = io.get("emitted", [])
+            if len(em) > 1 and not (em[0].get("t") == "tx" and em[0].get("n") == len(em)):
+                return [dict(step=idx, what="patch-not-one-unit", detail=dict(cmd=strip(ln), emitted=em))]
+        if ln.get("k") == "patch":
+            if io.get("hang") or io.get("crash"):
+                return [dict(step=idx, what="rest-patch-no-answer", detail=dict(cmd=strip(ln)))]
+            if io.get("rpc") == 0:
+                if first_diff(io.get("json"), ln.get("json")):
+                    return [dict(step=idx, what="rest-answer-is-not-target", detail=dict(cmd=strip(ln), got=io.get("json")))]
+                nxt = case[idx + 1][0] if idx + 1 < len(case) else {}
+                if nxt.get("k") == "store" and ln.get("cuid"):
+                    st = nxt["obs"]["store"]
+                    ud = [u for u in st["userDocs"] if u["col"] == ln["col"] and u["key"] == ln["key"]]
+                    if not ud or first_diff(ud[0]["value"], ln.get("json")):
+                        return [dict(step=idx, what="stored-document-is-not-target", detail=dict(cmd=strip(ln), stored=ud))]
+    return []
+
+
+def enc_roundtrip(case):
+    """C14: every operation survives protobuf, the store (BSON through the MongoDB stand-in) and the echo
+    service with the same identifier, type and body; a value of any Go shape reads the same on the
+    issuing replica and on a replica that received the operation through the wire."""
+    for idx, (ln, mo) in enumerate(case):
+        io = ln.get("obs", {})
+        if ln.get("k") == "enc":
+            for k in ("panic", "protoErr", "storeErr", "echoErr"):
+                if io.get(k):
+                    return [dict(step=idx, what="codec-failed:" + k, detail=dict(cmd=strip(ln), msg=io.get(k), panicMsg=io.get("panicMsg")))]
+            for k in ("proto", "bson", "echo"):
+                if first_diff(io.get(k), ln.get("op")):
+                    return [dict(step=idx, what="operation-changed-by:" + k, detail=dict(cmd=strip(ln), got=io.get(k)))]
+        if ln.get("k") == "shape":
+            for k in ("panic", "protoErr", "storeErr", "echoErr", "roundtrip-differs"):
+                if io.get(k):
+                    return [dict(step=idx, what="shape:" + k, detail=dict(cmd=strip(ln), msg=io.get(k), panicMsg=io.get("panicMsg")))]
+            if io.get("err") == 0 and (io.get("recvErr") or first_diff(io.get("viewA"), io.get("viewB"))):
+                return [dict(step=idx, what="shape:sender-and-receiver-differ", detail=dict(cmd=strip(ln), a=io.get("viewA"), b=io.get("viewB"), recvErr=io.get("recvErr")))]
+    return []
+
+
 def hash_unique(case):
     """C15: no two timestamps of the exhaustive grid share an identifier key."""
     for idx, (ln, mo) in enumerate(case):
@@ -632,6 +685,6 @@ def hash_unique(case):
     return []
 
 
-ORACLES = dict(hash_unique=hash_unique, loginv=loginv, sconverge=sconverge, refused_noop=refused_noop,
+ORACLES = dict(hash_unique=hash_unique, enc_roundtrip=enc_roundtrip, patch_target=patch_target, loginv=loginv, sconverge=sconverge, refused_noop=refused_noop,
                isolation=isolation, notify=notify, contract=contract, corr=corr, spec=spec, converge=converge, err_noop=err_noop, no_panic=no_panic,
                seq_gapless=seq_gapless, list_order=list_order, twin=twin, tx_atomic=tx_atomic)
